@@ -366,11 +366,6 @@ def run_check(prop, tier, seed, replay=None):
                 cov['plan_wf_checked'] = cov.get('plan_wf_checked', 0) + sum(1 for mline in model if mline.endswith('WF 1') or mline.endswith('WF 2'))
                 cov['plan_wf_proved_cases'] = cov.get('plan_wf_proved_cases', 0) + sum(1 for mline in model if mline.endswith('WF 1'))
                 cov['plan_wf_validated_only_cases'] = cov.get('plan_wf_validated_only_cases', 0) + sum(1 for mline in model if mline.endswith('WF 2'))
-                # WF 4: the fuel of Reorder's topological sort is not shown sufficient (reorder_fuel_ok, TopoFuel.v)
-                nofuel = [i for i, mline in enumerate(model) if mline.endswith('WF 4')]
-                if nofuel:
-                    tie_broken.append('hypothesis reorder_fuel_ok of C04_reorder_sort_fuel_suffices fails on %d generated case(s), first: %s' % (len(nofuel), cases[nofuel[0]]))
-                cov['reorder_fuel_proved_sufficient_cases'] = cov.get('reorder_fuel_proved_sufficient_cases', 0) + sum(1 for mline in model if mline.endswith(('WF 1', 'WF 2')))
             if model is not None:
                 cmp = scfg.get('compare', lambda c, o, m: o == m)
                 bad = [i for i in range(len(cases)) if not cmp(cases[i], obs[i], model[i])]
